@@ -102,6 +102,48 @@ var edgeInts = []int64{0, 1, -1, 2, 7, math.MinInt64, math.MaxInt64, 1 << 31, -(
 var edgeFloats = []float64{0, math.Copysign(0, -1), 1, -1, 0.5, 0.1, 1e-300, 1e300, math.MaxFloat64, math.SmallestNonzeroFloat64, 2.2250738585072014e-308,
 	4.9406564584124654e-320, 1 << 53, 1<<53 + 2, 1<<53 - 1, 1e21, 1e20, 123456789.125, 1e-7, math.NaN(), math.Inf(1), math.Inf(-1)}
 
+// wholeEdgeFloats: whole-number floats at and around every integer-conversion edge (a formatter
+// that prints whole floats through an integer type overflows or loses digits exactly here).
+func wholeEdgeFloats() []float64 {
+	p63, p62, p53, p31, p32, p64 := math.Ldexp(1, 63), math.Ldexp(1, 62), math.Ldexp(1, 53), math.Ldexp(1, 31), math.Ldexp(1, 32), math.Ldexp(1, 64)
+	pos := []float64{p63, math.Nextafter(p63, 0), math.Nextafter(p63, math.Inf(1)), p62, math.Nextafter(p62, 0), math.Nextafter(p62, math.Inf(1)),
+		p53, p53 + 2, p53 - 1, p53 - 2, p31, p31 - 1, p31 + 1, p32, p32 - 1, p32 + 1, p64, math.Nextafter(p64, 0), math.Nextafter(p64, math.Inf(1)),
+		float64(math.MaxInt64), float64(math.MaxUint64), float64(math.MaxInt32), 1e15, 1e16, 1e17, 1e18, 1e19, 1e20, 1e21, 1e22, 1e23, 1e100, 1e300, math.MaxFloat64,
+		9e18, 9.3e18, 9223372036854775000, 9223372036854777000, 1.8446744073709552e19, 123000000000, 7e15, 4000000000000000000, 5e18 + 1024, 3, 10, 1000000}
+	out := []float64{0, math.Copysign(0, -1)}
+	for _, f := range pos {
+		out = append(out, f, -f)
+	}
+	return out
+}
+
+// edgeBatches writes every whole-number edge float through both formatters, in a plain Float
+// column, a nullable one and inside a list (deterministic; both tiers).
+func edgeBatches(c *core.Ctx) {
+	w := wholeEdgeFloats()
+	lt := octosql.Float
+	fsJSON := []physical.SchemaField{{Name: "id", Type: octosql.Float}, {Name: "n", Type: union(octosql.Null, octosql.Float)},
+		{Name: "l", Type: octosql.Type{TypeID: octosql.TypeIDList, List: struct{ Element *octosql.Type }{Element: &lt}}}, {Name: "u", Type: union(octosql.Int, octosql.Float, octosql.String)}}
+	fsCSV := []physical.SchemaField{{Name: "id", Type: octosql.Float}, {Name: "n", Type: union(octosql.Null, octosql.Float)}, {Name: "u", Type: union(octosql.Int, octosql.Float, octosql.String)}}
+	for _, id := range []string{"jsonedge-0", "csvedge-0"} {
+		if c.Only != "" && c.Only != id {
+			continue
+		}
+		rng := c.Rng("batch/" + id)
+		if id == "jsonedge-0" {
+			jsonBatchOf(c, id, rng, len(w), fsJSON, func(i int) []octosql.Value {
+				return []octosql.Value{octosql.NewFloat(w[i]), octosql.NewFloat(w[(i+1)%len(w)]), octosql.NewList([]octosql.Value{octosql.NewFloat(w[(i+2)%len(w)]), octosql.NewFloat(w[i])}), octosql.NewFloat(w[(i+3)%len(w)])}
+			})
+			c.Count("inproc/json/whole_number_edge_floats", len(w))
+		} else {
+			csvBatchOf(c, id, rng, len(w), fsCSV, func(i int) []octosql.Value {
+				return []octosql.Value{octosql.NewFloat(w[i]), octosql.NewFloat(w[(i+1)%len(w)]), octosql.NewFloat(w[(i+3)%len(w)])}
+			})
+			c.Count("inproc/csv/whole_number_edge_floats", len(w))
+		}
+	}
+}
+
 func randValue(rng *rand.Rand, t octosql.Type) octosql.Value {
 	switch t.TypeID {
 	case octosql.TypeIDNull:
@@ -114,6 +156,10 @@ func randValue(rng *rand.Rand, t octosql.Type) octosql.Value {
 	case octosql.TypeIDFloat:
 		if rng.Intn(4) == 0 {
 			return octosql.NewFloat(edgeFloats[rng.Intn(len(edgeFloats))])
+		}
+		if rng.Intn(6) == 0 {
+			w := wholeEdgeFloats()
+			return octosql.NewFloat(w[rng.Intn(len(w))])
 		}
 		return octosql.NewFloat(fileh.RandFloat(rng))
 	case octosql.TypeIDBoolean:
@@ -442,7 +488,11 @@ func showSchema(fs []physical.SchemaField) string {
 // in-process legs
 
 func jsonBatch(c *core.Ctx, id string, rng *rand.Rand, nRows int) {
-	fs := randSchema(rng, true)
+	jsonBatchOf(c, id, rng, nRows, randSchema(rng, true), nil)
+}
+
+// jsonBatchOf: gen == nil draws random rows for fs.
+func jsonBatchOf(c *core.Ctx, id string, rng *rand.Rand, nRows int, fs []physical.SchemaField, gen func(i int) []octosql.Value) {
 	var buf bytes.Buffer
 	var f *formats.JSONFormatter
 	p, msg := core.Try(func() {
@@ -456,8 +506,12 @@ func jsonBatch(c *core.Ctx, id string, rng *rand.Rand, nRows int) {
 	}
 	for i := 0; i < nRows; i++ {
 		row := make([]octosql.Value, len(fs))
-		for j := range row {
-			row[j] = randValue(rng, fs[j].Type)
+		if gen != nil {
+			row = gen(i)
+		} else {
+			for j := range row {
+				row[j] = randValue(rng, fs[j].Type)
+			}
 		}
 		c.Eval(1)
 		start := buf.Len()
@@ -569,7 +623,10 @@ func nontrivial(c *core.Ctx, format string, fs []physical.SchemaField, row []oct
 }
 
 func csvBatch(c *core.Ctx, id string, rng *rand.Rand, nRows int) {
-	fs := randSchema(rng, false)
+	csvBatchOf(c, id, rng, nRows, randSchema(rng, false), nil)
+}
+
+func csvBatchOf(c *core.Ctx, id string, rng *rand.Rand, nRows int, fs []physical.SchemaField, gen func(i int) []octosql.Value) {
 	var buf bytes.Buffer
 	rowsIn := make([][]octosql.Value, nRows)
 	var failed string
@@ -578,8 +635,12 @@ func csvBatch(c *core.Ctx, id string, rng *rand.Rand, nRows int) {
 		f.SetSchema(physical.NewSchema(fs, -1))
 		for i := range rowsIn {
 			row := make([]octosql.Value, len(fs))
-			for j := range row {
-				row[j] = randValue(rng, fs[j].Type)
+			if gen != nil {
+				row = gen(i)
+			} else {
+				for j := range row {
+					row[j] = randValue(rng, fs[j].Type)
+				}
 			}
 			rowsIn[i] = row
 			if err := f.Write(row); err != nil {
@@ -676,10 +737,11 @@ func Run(c *core.Ctx) core.FinishOpts {
 			csvBatch(c, id, rng, perBatch)
 		}
 	})
+	edgeBatches(c)
 	runCLI(c)
 	return core.FinishOpts{
 		Level: "exploration",
-		Rule: "rows = random typed rows (Int extremes, floats incl. +-0, subnormals, 2^53+-1, NaN, +-Inf, valid-UTF-8 strings with control characters, quotes, separators, newlines, " +
+		Rule: "rows = random typed rows (Int extremes, floats incl. +-0, subnormals, NaN, +-Inf, whole-number floats at and around every integer-conversion edge (+-2^63 and neighbours, 2^62, 2^53, 2^32, 2^31, 2^64, 1e15..1e23, MaxFloat64) - all of them deterministically in both formatters and through the CLI -, valid-UTF-8 strings with control characters, quotes, separators, newlines, " +
 			"times, durations, nested lists/objects/tuples to depth 3, union-typed columns) written through the real formatters, 25 rows per formatter instance; CLI leg: JSON/CSV inputs and SQL literals through the binary; " +
 			"non-trivial = the row decoded to the written values and holds a value other than NULL/Boolean/small Int/alphanumeric String; distinct by (format, schema, row)",
 		Floor: c.Pick(2000, 150000),
